@@ -260,6 +260,7 @@ def gen_invalid(rng, kind, maxops):
 
 
 ALPHA16 = ['u0', 'u1', 'o', 'i0,2', 'i-1,2', 'i1,1', 'd0', 'd-1', 's0,2', 'r1', 'r0', 't', 'z1', 'z2', 'cL:1,0', 'y']
+ALPHA_ACCESS = ['u0', 'o', 'i0,2', 'i1,1', 'i-1,2', 'g0', 'g1', 'g2', 'g-1', 's1,2', 'd0', 'd1']
 ALPHA7 = {'A': ['u0', 'u1', 'o', 'i0,2', 'i-1,2', 'd0', 't'],
           'L': ['u0', 'u1', 'o', 'i0,2', 'i-1,2', 'd0', 'r1'],
           'T': ['u0', 'u1', 'o', 'i0,2', 'i-1,2', 'd0', 't']}
@@ -530,11 +531,17 @@ def run(ctx):
             for ops in gen_exhaustive(ALPHA7[kind], 6):
                 if len(ops) > 4:
                     ex.append(kind + '|' + ' '.join(ops))
+        # access patterns, no dump between operations: every sequence of <= 5 (List) / <= 4 (Array, Tuple)
+        # operations from ALPHA_ACCESS on a container holding 0,1,2
+        for kind in KINDS:
+            for ops in gen_exhaustive(ALPHA_ACCESS, 5 if kind == 'L' else 4):
+                ex.append(kind + '*|N0,1,2 ' + ' '.join(ops))
         for i in range(0, len(ex), 8000):
             d.feed(ex[i:i + 8000])
         ctx.cov['exhaustive'] = ('bounded search (not a proof): per container every sequence of <= 4 operations from the '
                                  '16-operation alphabet %s and every sequence of 5 or 6 operations from the 7-operation alphabet '
-                                 '%s over the values 0,1,2: %d cases' % (ALPHA16, ALPHA7, len(ex)))
+                                 '%s over the values 0,1,2; and, without any dump between operations, every sequence of <= 5 (List) / <= 4 (Array, Tuple) '
+                                 'operations from %s on a container holding 0,1,2: %d cases' % (ALPHA16, ALPHA7, ALPHA_ACCESS, len(ex)))
 
     def extra(dd):
         for kind in KINDS:
